@@ -3,7 +3,7 @@
 
 use crate::program::*;
 use crate::rng::Rng;
-use crate::sched::{Faults, RunSetup, Seg, Strategy, MAXT, NEV, SITE_EV0, SITE_LOCK, SITE_OPEND, SITE_OPSTART};
+use crate::sched::{Faults, RunSetup, Seg, Strategy, MAXT, MAXT_CLASSIC, NEV, SITE_EV0, SITE_LOCK, SITE_OPEND, SITE_OPSTART};
 use crate::types::HashKind;
 
 #[derive(Clone, Debug)]
@@ -717,7 +717,7 @@ pub fn gen_setup(rng: &mut Rng, seed: u64, p: &Program, stall_pct: u32, spurious
         4..=6 => {
             let d = rng.range(1, 5);
             let mut prio = [0u32; MAXT];
-            let mut order: Vec<u32> = (0..MAXT as u32).collect();
+            let mut order: Vec<u32> = (0..MAXT_CLASSIC as u32).collect();
             rng.shuffle(&mut order);
             for (i, o) in order.iter().enumerate() {
                 prio[i] = 1000 + *o;
@@ -805,6 +805,14 @@ pub fn gen_par_program(rng: &mut Rng, gc: &GenCfg) -> Program {
                 next_key += 1;
                 next_key
             };
+            // at most four items per key and call: every further one multiplies the orders the
+            // linearizability search has to consider without adding a new situation
+            let k = if kv.iter().filter(|x| x.0 == k).count() >= 4 {
+                next_key += 1;
+                next_key
+            } else {
+                k
+            };
             kv.push((k, next_vid));
         }
         let parts = rng.range(1, 4) as u8;
@@ -824,4 +832,84 @@ pub fn gen_par_program(rng: &mut Rng, gc: &GenCfg) -> Program {
         }
     }
     p
+}
+
+/// Crowd scenario: far more readers inside one tree bin at the same time than the ordinary
+/// programs have threads. The tree-bin lock word counts readers above its two flag bits; whether
+/// the count and the flags stay apart is a question of how many readers there are at once, not of
+/// the interleaving of a few. Up to 38 readers are parked right behind their read-lock
+/// acquisition (site event `ReaderTreePath`), then writers restructure the same bin, then the
+/// readers leave, then writers come again.
+pub fn gen_crowd(rng: &mut Rng) -> (Program, Strategy) {
+    use flurry::verif::Ev;
+    let shape = *rng.pick(&[Shape::Tree, Shape::Tree, Shape::BigTree]);
+    let so = make_shape(rng, shape, &[]);
+    let keys = so.existing.clone();
+    let writers = rng.range(1, 2) as usize;
+    let readers = (*rng.pick(&[12usize, 24, 31, 32, 32, 33, 33, 35, 38])).min(MAXT - writers);
+    let mut threads: Vec<Vec<Op>> = Vec::new();
+    let mut vid = 1u32;
+    for _ in 0..writers {
+        let n = rng.range(3, 6);
+        let mut ops = Vec::new();
+        for _ in 0..n {
+            let k = *rng.pick(&keys);
+            vid += 1;
+            ops.push(match rng.below(5) {
+                0 | 1 => Op::Remove(k),
+                2 => Op::Insert(k, vid),
+                3 => Op::Compute(k, CFn::Remove, 0),
+                _ => Op::Insert(*rng.pick(&so.fresh), vid),
+            });
+        }
+        threads.push(ops);
+    }
+    for _ in 0..readers {
+        let k = *rng.pick(&keys);
+        let mut ops = vec![if rng.chance(1, 4) { Op::GetKV(k) } else { Op::Get(k) }];
+        if rng.chance(1, 4) {
+            ops.push(Op::Get(*rng.pick(&keys)));
+        }
+        threads.push(ops);
+    }
+    let n = threads.len();
+    let inside = SITE_EV0 + Ev::ReaderTreePath as u8;
+    let mut order: Vec<u8> = (writers as u8..n as u8).collect();
+    rng.shuffle(&mut order);
+    let mut segs: Vec<Seg> = Vec::new();
+    if rng.chance(1, 3) {
+        // a writer first: readers then meet a tree that has just been restructured
+        segs.push(Seg { thread: 0, site: Some(SITE_OPEND), nth: 1 });
+    }
+    for &r in &order {
+        segs.push(Seg { thread: r, site: Some(inside), nth: 1 });
+    }
+    for w in 0..writers as u8 {
+        // one operation: it parks behind the readers (if nothing stops it, it still has
+        // operations left for the time after the readers have gone)
+        segs.push(Seg { thread: w, site: Some(SITE_OPEND), nth: 1 });
+    }
+    rng.shuffle(&mut order);
+    for &r in &order {
+        segs.push(Seg { thread: r, site: None, nth: 1 });
+    }
+    for w in 0..writers as u8 {
+        segs.push(Seg { thread: w, site: None, nth: 1 });
+    }
+    let facade = (0..n).map(|_| if rng.chance(1, 3) { Facade::Pinned } else { Facade::Guarded }).collect();
+    let p = Program {
+        cfg: Config {
+            hash: so.hash,
+            capacity: so.capacity,
+            batch: *rng.pick(&[1u32, 8, 120]),
+            set: false,
+            ncpu: None,
+            min_stride: None,
+            prepop: so.prepop,
+            preremove: so.preremove,
+            facade,
+        },
+        threads,
+    };
+    (p, Strategy::Script { segs, cur: 0, hits: 0 })
 }
